@@ -50,6 +50,42 @@ fn main() {
             }).collect();
             for l in res { println!("{}", l); }
         }
+        "prism" => {
+            use dsv::gen::prismatic::*;
+            use rayon::prelude::*;
+            let count: u32 = args[2].parse().unwrap();
+            let res: Vec<String> = (0..count).into_par_iter().map(|k| {
+                let mut h = (k as u64 + 1).wrapping_mul(0x9e3779b97f4a7c15);
+                let mut next = || { h ^= h >> 29; h = h.wrapping_mul(0xbf58476d1ce4e5b9); h ^= h >> 32; (h & 0xffff_ffff) as u32 };
+                let which = (next() % 4) as usize;
+                let ng = 1 + (next() % 3) as usize;
+                let codes: Vec<(u32, u32)> = (0..ng).map(|_| (next(), next())).collect();
+                let (ds, text) = quotient_by_codes(which, &codes);
+                let t = std::time::Instant::now();
+                let v = dsv::runner::guarded(|| dsv::props::c17::verdict(&ds, false));
+                format!("{}\t{:?}\t{:?}\t{}\t{}", ds.size, v, t.elapsed(), dsv::gen::dsym3::has_spherical_links(&ds), text)
+            }).collect();
+            for l in res { println!("{}", l); }
+        }
+        "timeptc" => {
+            let v: serde_json::Value = serde_json::from_str(&std::fs::read_to_string(&args[2]).unwrap()).unwrap();
+            let c = v.get("case").unwrap();
+            let ds = DS::decode(c.get("symbol").or(c.get("base")).unwrap()).unwrap();
+            let t = std::time::Instant::now();
+            let y = rust_dsymbols::delaney3d::pseudo_toroidal_cover(&ds.to_partial()).map(|y| DS::from_dsym(&y));
+            eprintln!("crate ptc: {:?} -> {:?} chambers", t.elapsed(), y.as_ref().map(|y| y.size));
+            if let Some(y) = y {
+                let t = std::time::Instant::now();
+                let r = dsv::gen::covers::check_projection(&ds, &y);
+                eprintln!("check_projection: {:?} {:?}", t.elapsed(), r.is_ok());
+                let t = std::time::Instant::now();
+                let fg = dsv::oracle::fg::own_fundamental_group(&y);
+                eprintln!("own fg: {:?} gens {} rels {}", t.elapsed(), fg.pres.nr_gens, fg.pres.rels.len());
+                let t = std::time::Instant::now();
+                let h = dsv::props::c15::h1(&y);
+                eprintln!("h1: {:?} {:?}", t.elapsed(), h);
+            }
+        }
         "interesting3d" => {
             // 3D symbols of a given size whose euclidicity verdict is decided after simplification
             use rayon::prelude::*;
